@@ -3,37 +3,43 @@ From SioV Require Import Base.GoSem Base.Conc Sio.Lifecycle Sio.LifecycleReach S
   Sio.Lifecycle2 Sio.Lifecycle2Inv.
 Local Open Scope N_scope.
 
-Definition run2 (sched : list act2) : ctl2 := exec (cstep2 true) sched cinit2.
+(** [same = false]: sockets of two namespaces; [same = true]: two sockets of one namespace *)
+Definition run2 (same : bool) (sched : list act2) : ctl2 := exec (cstep2 (code2 same)) sched cinit2.
 
-Lemma reachable_p_all2 : forall sched, p_all2 true (run2 sched) = true.
+Lemma reachable_p_all2 : forall same sched, p_all2 (code2 same) (run2 same sched) = true.
 Proof.
-  destruct (reach_ok_of2_split _ _ reach_ok_code2) as (HC & H0 & HP).
-  intros sched.
-  exact (@all_exec ctl2 act2 (list N) (cstep2 true) all_acts2 hkey2 lcmp lcmp_eq hkey2_inj all_acts2_complete
-                   leqb leqb_eq (reach_tree2 true) cinit2 (p_all2 true) HC H0 HP sched).
+  intros [] sched.
+  - destruct (reach_ok_of2_split _ _ reach_ok_code2_same) as (HC & H0 & HP).
+    exact (@all_exec ctl2 act2 (list N) (cstep2 (code2 true)) all_acts2 hkey2 lcmp lcmp_eq hkey2_inj all_acts2_complete
+                     leqb leqb_eq (reach_tree2 (code2 true)) cinit2 (p_all2 (code2 true)) HC H0 HP sched).
+  - destruct (reach_ok_of2_split _ _ reach_ok_code2) as (HC & H0 & HP).
+    exact (@all_exec ctl2 act2 (list N) (cstep2 (code2 false)) all_acts2 hkey2 lcmp lcmp_eq hkey2_inj all_acts2_complete
+                     leqb leqb_eq (reach_tree2 (code2 false)) cinit2 (p_all2 (code2 false)) HC H0 HP sched).
 Qed.
 
-Lemma p_sock_run sched (w : bool) : p_sock true (run2 sched) (gsk w (run2 sched)) = true.
+Lemma p_sock_run same sched (w : bool) :
+  p_sock (code2 same) (run2 same sched) (gsk w (run2 same sched)) = true.
 Proof.
-  pose proof (reachable_p_all2 sched) as H. unfold p_all2 in H. apply andb_true_iff in H as [HA HB].
+  pose proof (reachable_p_all2 same sched) as H. unfold p_all2 in H. apply andb_true_iff in H as [HA HB].
   destruct w; assumption.
 Qed.
 
 Section Two.
+  Variable same : bool.
   Variable sched : list act2.
   Variable w : bool.
-  Let s := run2 sched.
+  Let s := run2 same sched.
   Let k := gsk w s.
 
   Lemma two_spec :
     (nd k <= 1) /\ (ndg k <= 1)
     /\ (ever k = false -> nd k = 0 /\ ndg k = 0)
     /\ (nd k = 1 -> ndg k = 1 /\ o k = Done /\ conn k = false)
-    /\ (quiescent2 true s = true -> ever k = true -> end_begun2 s k = true -> nd k = 1 /\ ndg k = 1)
-    /\ (quiescent2 true s = true -> e_once2 s = Done -> sk_clean k = true /\ store2 s = false)
-    /\ (quiescent2 true s = true -> o k = Done -> sk_clean k = true).
+    /\ (quiescent2 (code2 same) s = true -> ever k = true -> end_begun2 s k = true -> nd k = 1 /\ ndg k = 1)
+    /\ (quiescent2 (code2 same) s = true -> e_once2 s = Done -> sk_clean k = true /\ store2 s = false)
+    /\ (quiescent2 (code2 same) s = true -> o k = Done -> sk_clean k = true).
   Proof.
-    pose proof (p_sock_run sched w) as H. fold s in H. fold k in H. unfold p_sock, implb' in H.
+    pose proof (p_sock_run same sched w) as H. fold s in H. fold k in H. unfold p_sock, implb' in H.
     rewrite !andb_true_iff in H. destruct H as [[[[[[A B] C] D] E] F] G].
     split; [now apply N.leb_le|]. split; [now apply N.leb_le|].
     split; [|split; [|split; [|split]]].
@@ -61,17 +67,48 @@ Definition sched_flag_late : list act2 :=
    A2Cpick false; A2Cbody; A2Cbody; A2Ebody].                                  (* flag set now; connection gone *)
 
 Lemma flag_late_witness :
-  let s := exec (cstep2 false) sched_flag_late cinit2 in
-  quiescent2 false s = true /\ e_once2 s = Done /\ store2 s = false
+  let s := exec (cstep2 (mkCfg2 false false false)) sched_flag_late cinit2 in
+  quiescent2 (mkCfg2 false false false) s = true /\ e_once2 s = Done /\ store2 s = false
   /\ nd (skA s) = 1 /\ sk_clean (skA s) = true
   /\ ever (skB s) = true /\ nd (skB s) = 0 /\ conn (skB s) = true /\ innsp (skB s) = true /\ room (skB s) = true.
 Proof. vm_compute. repeat split. Qed.
 
 (** the same schedule on the code: B's re-check sees the flag and closes it *)
 Lemma flag_first_same_schedule :
-  let s := exec (cstep2 true) (sched_flag_late ++ [A2Sbody true; A2Sbody true; A2Sbody true; A2Sbody true;
+  let s := exec (cstep2 (code2 false)) (sched_flag_late ++ [A2Sbody true; A2Sbody true; A2Sbody true; A2Sbody true;
                                                   A2Sbody true; A2Sbody true; A2Sbody true; A2Admit true;
                                                   A2Cbody; A2Ebody]) cinit2 in
-  quiescent2 true s = true /\ e_once2 s = Done /\ nd (skA s) = 1 /\ nd (skB s) = 1
+  quiescent2 (code2 false) s = true /\ e_once2 s = Done /\ nd (skA s) = 1 /\ nd (skB s) = 1
+  /\ sk_clean (skA s) = true /\ sk_clean (skB s) = true.
+Proof. vm_compute. repeat split. Qed.
+
+(** two overlapping CONNECT packets for ONE namespace; a table `set` that drops the by-id entry of the
+    socket it displaces: both sockets connect, the connection ends, only the later one is closed *)
+Definition sched_displace : list act2 :=
+  [A2Admit false; A2Admit true;                       (* both CONNECTs passed getByNsp, both in the middleware *)
+   A2Admit false; A2Admit false; A2Admit false; A2Admit false;   (* A admitted, connected *)
+   A2Admit true; A2Admit true; A2Admit true; A2Admit true;       (* B admitted: displaces A in the table *)
+   A2ConnEnd; A2Ebody; A2Cbody; A2Cbody; A2Cpick true;
+   A2Sbody true; A2Sbody true; A2Sbody true; A2Sbody true; A2Sbody true; A2Sbody true; A2Sbody true;
+   A2Cpick true; A2Cbody; A2Ebody].
+
+Lemma displace_witness :
+  let s := exec (cstep2 (mkCfg2 true true true)) sched_displace cinit2 in
+  quiescent2 (mkCfg2 true true true) s = true /\ e_once2 s = Done /\ store2 s = false
+  /\ nd (skB s) = 1 /\ sk_clean (skB s) = true
+  /\ ever (skA s) = true /\ nd (skA s) = 0 /\ conn (skA s) = true /\ innsp (skA s) = true /\ room (skA s) = true.
+Proof. vm_compute. repeat split. Qed.
+
+(** the same schedule on the code: the connection's by-id table still holds A; both are closed *)
+Lemma displace_same_schedule_code :
+  let s := exec (cstep2 (code2 true))
+             [A2Admit false; A2Admit true; A2Admit false; A2Admit false; A2Admit false; A2Admit false;
+              A2Admit true; A2Admit true; A2Admit true; A2Admit true;
+              A2ConnEnd; A2Ebody; A2Cbody; A2Cbody; A2Cpick true;
+              A2Sbody true; A2Sbody true; A2Sbody true; A2Sbody true; A2Sbody true; A2Sbody true; A2Sbody true;
+              A2Cpick true; A2Cpick false;
+              A2Sbody false; A2Sbody false; A2Sbody false; A2Sbody false; A2Sbody false; A2Sbody false; A2Sbody false;
+              A2Cpick false; A2Cbody; A2Ebody] cinit2 in
+  quiescent2 (code2 true) s = true /\ e_once2 s = Done /\ nd (skA s) = 1 /\ nd (skB s) = 1
   /\ sk_clean (skA s) = true /\ sk_clean (skB s) = true.
 Proof. vm_compute. repeat split. Qed.
